@@ -449,13 +449,23 @@ async fn sub_loop(mut st: SubState, detached: bool) -> LoopEnd {
 			}
 			SubCmd::TrySend(n) => {
 				if let Some(s) = sink.as_mut() {
-					let r = s.try_send(raw(n));
+					let mut r = s.try_send(raw(n));
+					// a handler may try again later with the message it got back
+					if let Err(jsonrpsee_core::server::TrySendError::Full(m)) = r {
+						rt::probe("try_send_full_retried");
+						tokio::time::sleep(Duration::from_millis(3)).await;
+						r = s.try_send(m);
+					}
 					ev(&ctl, inv, "try_send", r.is_ok(), Some(n));
 				}
 			}
 			SubCmd::SendTimeout(n, ms) => {
 				if let Some(s) = &sink {
-					let r = s.send_timeout(raw(n), Duration::from_millis(ms)).await;
+					let mut r = s.send_timeout(raw(n), Duration::from_millis(ms)).await;
+					if let Err(jsonrpsee_core::server::SendTimeoutError::Timeout(m)) = r {
+						rt::probe("send_timeout_retried");
+						r = s.send_timeout(m, Duration::from_millis(40)).await;
+					}
 					ev(&ctl, inv, "send_timeout", r.is_ok(), Some(n));
 				}
 			}
